@@ -349,6 +349,8 @@ class Scen:
         return m
 
     def _second(self):
+        if self.gate.done():
+            return          # chosen a pass ago together with another event that started the second request
         # keep-alive decisions of both ends at rest
         ct, st = self.links[0]
         # pooled = the client decided to keep the connection.  If the server closed it all the same, the client
